@@ -212,7 +212,7 @@ def P(name, fn, **kw):
         src = ""
     if kw.get("tags") and set(kw["tags"]) & {"head", "tail"}:
         kw.setdefault("dask_only", True)  # head(n) reads the first partition(s) only: no layout-free pandas meaning
-    if "reset_index" in src:
+    if "reset_index" in src or "ignore_index=True" in src:
         kw.setdefault("index_free", True)  # per-partition RangeIndex: labels documented as unspecified
     if ".groupby(" in src and "sort=True" not in src and name not in ("gb_cumsum", "gb_cumcount"):
         kw.setdefault("order_free", True)  # group order is only defined with an explicit sort=True
@@ -496,6 +496,9 @@ P("repartition_divs_force", lambda t: t.df.repartition(divisions=[-2, 3, 8, len(
 P("head", lambda t: t.df.head(3, compute=False) if t.lazy else t.df.head(3), tags={"head"})
 P("head_elemwise", lambda t: (t.df.u + 1).head(2, compute=False) if t.lazy else (t.df.u + 1).head(2), tags={"head"})
 P("head_filter_npall", lambda t: t.df[t.df.a > 1].head(3, npartitions=-1, compute=False) if t.lazy else t.df[t.df.a > 1].head(3), tags={"head"})
+P("head_head_npall_few", lambda t: t.df[t.df.u >= 17].head(4, npartitions=-1, compute=False).head(3, compute=False) if t.lazy else t.df[t.df.u >= 17].head(4).head(3), tags={"head"})
+P("head_head_np2", lambda t: t.df.head(7, npartitions=2, compute=False).head(6, compute=False) if t.lazy else t.df.head(7).head(6), tags={"head"}, dask_only=True)
+P("tail_tail", lambda t: t.df.tail(4, compute=False).tail(2, compute=False) if t.lazy else t.df.tail(4).tail(2), tags={"head"}, dask_only=True)
 P("head_bcast", lambda t: (t.df.u + t.df.u.sum()).head(2, compute=False) if t.lazy else (t.df.u + t.df.u.sum()).head(2), tags={"head"})
 P("tail_elemwise", lambda t: (t.df.u * 2).tail(2, compute=False) if t.lazy else (t.df.u * 2).tail(2), tags={"tail"})
 # --- layouts with values sitting exactly on partition borders
@@ -565,6 +568,54 @@ P("pipe_sort_cumsum", lambda t: t.df.sort_values("u", ascending=False).u.cumsum(
 P("pipe_setindex_shift", lambda t: t.df.set_index("u").a.shift(1), tags={"sort", "window"})
 P("pipe_nunique_frame", lambda t: t.df[["a", "f"]].nunique())
 P("pipe_mean_frame_filter", lambda t: t.df[t.df.d][["b", "u"]].mean())
+
+
+# filters whose predicate is NOT row-wise (cumulative / shifted values, reductions of a filtered frame), and
+# filters on columns whose values the operation below them changes: moving such a filter changes what it selects
+P("nrw_filter_filter_cumsum", lambda t: (lambda d2: d2[d2.u.cumsum() > 20])(t.df[t.df.a > 0]), tags={"nonrowwise"})
+P("nrw_filter_filter_shift", lambda t: (lambda d2: d2[d2.u.shift(1) > 5])(t.df[t.df.a > 0]), tags={"nonrowwise", "window"})
+P("nrw_filter_filter_mean", lambda t: (lambda d2: d2[d2.u > d2.u.mean()])(t.df[t.df.a > 0]), tags={"nonrowwise"})
+P("nrw_sort_cumsum", lambda t: (lambda s_: s_[s_.u.cumsum() > 30])(t.df.sort_values("b")), tags={"nonrowwise", "sort"})
+P("nrw_sort_shift", lambda t: (lambda s_: s_[s_.u.shift(1) > 9])(t.df.sort_values("u", ascending=False)), tags={"nonrowwise", "sort", "window"})
+P("nrw_setindex_cumsum", lambda t: (lambda x: x[x.a.cumsum() > 6])(t.df.set_index("b") if t.lazy else t.df.set_index("b").sort_index(kind="stable")), tags={"nonrowwise", "sort"})
+P("nrw_repart_cumsum", lambda t: (lambda x: x[x.u.cumsum() > 20])(t.df.repartition(npartitions=2) if t.lazy else t.df), tags={"nonrowwise"})
+P("nrw_assign_cumsum", lambda t: (lambda x: x[x.z.cumsum() > 20])(t.df.assign(z=t.df.u + 1)), tags={"nonrowwise"})
+P("nrw_dropna_cumsum", lambda t: (lambda x: x[x.u.cumsum() > 20])(t.df.dropna(subset=["b"])), tags={"nonrowwise"})
+P("nrw_proj_filter_cumsum_sum", lambda t: (lambda d2: d2[d2.u.cumsum() > 20].u.sum())(t.df[t.df.a > 0][["u", "a"]]), tags={"nonrowwise"})
+P("vc_astype_trunc_gt", lambda t: (lambda x: x[x.h > 3])(t.df.assign(h=t.df.u * 0.45).astype({"h": "int64"})), tags={"valuechange"})
+P("vc_astype_trunc_eq", lambda t: (lambda x: x[x.h == 2])(t.df.assign(h=t.df.u * 0.45).astype({"h": "int64"})), tags={"valuechange"})
+P("vc_astype_series_trunc", lambda t: (lambda s_: s_[s_ > 3])((t.df.u * 0.45).astype("int64")), tags={"valuechange"})
+P("vc_astype_bool", lambda t: (lambda x: x[x.a == 1])(t.df.astype({"a": "bool"})), tags={"valuechange"})
+P("vc_astype_widen", lambda t: (lambda x: x[x.a > 1.5])(t.df.astype({"a": "float64"})), tags={"valuechange"})
+P("vc_astype_str", lambda t: (lambda x: x[x.a == "1"])(t.df.astype({"a": "string"})), tags={"valuechange"})
+P("vc_reset_index_mixed", lambda t: (lambda x: x[(x[x.columns[0]] != x[x.columns[0]].min()) & (x.a > 0)])(t.df.reset_index()), tags={"valuechange"})
+P("vc_reset_index_idx_only", lambda t: (lambda x: x[x[x.columns[0]] != x[x.columns[0]].min()])(t.df.reset_index()), tags={"valuechange"})
+P("vc_set_index_series_filter", lambda t: (lambda x: x[x.a > 0])(t.df.set_index(100 - t.df.u) if t.lazy else t.df.set_index(100 - t.df.u).sort_index(kind="stable")), tags={"valuechange", "sort"})
+P("vc_set_index_series_filter_idx", lambda t: (lambda x: x[x.index > 85])(t.df.set_index(100 - t.df.u) if t.lazy else t.df.set_index(100 - t.df.u).sort_index(kind="stable")), tags={"valuechange", "sort"})
+P("vc_toframe_filter", lambda t: (lambda x: x[x.u > 5])(t.df.u.to_frame()), tags={"valuechange"})
+P("vc_rename_series_filter", lambda t: (lambda s_: s_[s_ > 5])(t.df.u.rename("v")), tags={"valuechange"})
+
+
+# operations whose operands have different rows (aligned by index) or include a broadcast reduction: len() / divisions
+P("align_filtered_plus_unfiltered", lambda t: t.df.u[t.df.u > 5] + t.df.u, tags={"align"}, needs_range=True)  # duplicate labels: alignment is a per-partition product
+P("align_bcast_minus_frame", lambda t: t.df[["u", "a"]].max() - t.df[["u", "a"]], tags={"align"})
+P("align_series_bcast_minus", lambda t: t.df.u.mean() - t.df.u, tags={"align"})
+P("align_two_filters", lambda t: t.df.u[t.df.a > 0] * t.df.f[t.df.u > 9], tags={"align"}, needs_range=True)
+
+
+# found by reading sub-agent reports on the unchanged tree (each was a genuine defect, repaired or recorded)
+P("explode_select_exploded", lambda t: (t.df[["a", "u"]].assign(L=t.df.u.map(lambda v: [v, v + 1], meta=("u", object))) if t.lazy else t.df[["a", "u"]].assign(L=t.df.u.map(lambda v: [v, v + 1]))).explode("L")["L"])
+P("explode_select_other", lambda t: (t.df[["a", "u"]].assign(L=t.df.u.map(lambda v: [v, v + 1], meta=("u", object))) if t.lazy else t.df[["a", "u"]].assign(L=t.df.u.map(lambda v: [v, v + 1]))).explode("L")[["a"]])
+P("series_unnamed_drop_duplicates", lambda t: t.df.a.rename(None).drop_duplicates(), order_free=True, index_free=True)
+P("series_unnamed_unique", lambda t: t.df.a.rename(None).unique() if t.lazy else pd.Series(t.df.a.rename(None).unique()), order_free=True, index_free=True)
+P("sort_presorted_ignore_index", lambda t: t.df.sort_values("u", ignore_index=True), tags={"sort"})
+P("sort_ignore_index_cols", lambda t: t.df.sort_values("b", ignore_index=True)[["u", "b"]], tags={"sort"})
+P("sort_ignore_index_head", lambda t: t.df.sort_values("b", ignore_index=True).head(3, compute=False) if t.lazy else t.df.sort_values("b", ignore_index=True).head(3), tags={"sort", "head"})
+P("sort_ignore_index_tail", lambda t: t.df.sort_values("b", ignore_index=True).tail(3, compute=False) if t.lazy else t.df.sort_values("b", ignore_index=True).tail(3), tags={"sort", "head"})
+P("sample_half", lambda t: t.df.sample(frac=0.5, random_state=7), dask_only=True)
+P("sample_half_cols", lambda t: t.df.sample(frac=0.5, random_state=7)[["u"]], dask_only=True)
+P("random_split_first", lambda t: t.df.random_split([0.5, 0.5], random_state=3)[0] if t.lazy else t.df, dask_only=True)
+P("shuffle_ignore_index_drop_duplicates", lambda t: t.df[["a", "f"]].shuffle("a", ignore_index=True).drop_duplicates() if t.lazy else t.df[["a", "f"]].drop_duplicates(), order_free=True, index_free=True)
 
 
 def program_names(tags_exclude=()):
